@@ -39,6 +39,7 @@ import (
 	"go/ast"
 	"go/parser"
 	"go/token"
+	"math"
 	"path/filepath"
 	"runtime"
 	"sort"
@@ -1073,6 +1074,11 @@ func c20Gen(g *hx.Gen) {
 	for _, p := range []int{1 << 31, -(1 << 31), 1<<62 - 1, -(1 << 62)} {
 		g.Casef("cv %d", p)
 	}
+	// the ends of int: ZeroToOne(MaxInt64) wraps around to MinInt64
+	for d := 0; d <= 3; d++ {
+		g.Casef("cv %d", math.MaxInt64-d)
+		g.Casef("cv %d", math.MinInt64+d)
+	}
 	n := g.Scale(40000, 1000000)
 	deepEvery := g.Scale(150, 400)
 	for k := 0; k < n && !g.Done(); k++ {
@@ -1090,7 +1096,14 @@ func c20Gen(g *hx.Gen) {
 		case r < 19:
 			g.Case(c20GenGF(g))
 		default:
-			g.Casef("cv %d", g.Range(-1000000, 1000000))
+			switch g.Intn(4) {
+			case 0:
+				g.Casef("cv %d", math.MaxInt64-g.Intn(1000))
+			case 1:
+				g.Casef("cv %d", math.MinInt64+g.Intn(1000))
+			default:
+				g.Casef("cv %d", g.Range(-1000000, 1000000))
+			}
 		}
 	}
 }
